@@ -7,6 +7,11 @@ import os
 import sys
 import traceback
 
+# one BLAS/OpenMP thread per process: the checks parallelise over processes, and single-threaded reductions make the
+# floating-point results independent of the machine's load and core count
+for _v in ("OMP_NUM_THREADS", "OPENBLAS_NUM_THREADS", "MKL_NUM_THREADS", "NUMEXPR_NUM_THREADS"):
+    os.environ.setdefault(_v, "1")
+
 sys.path.insert(0, os.path.dirname(os.path.abspath(__file__)))
 import core  # noqa: E402
 
